@@ -140,7 +140,12 @@ ROLE_ONE = ["go next if aux {X} is done", "go next if {X} is done", "go next if 
             "put 1 into x of framer {X}", "put 1 into x of frame {X}", "put 1 into x of frame a of framer {X}",
             "over {X}", "under {X}", "next {X}", "first {X}", "go {X}", "go {X} if elapsed > 1", "let {X} if elapsed > 1",
             "do doer param per x of framer {X}", "set x of framer {X} with 1", "inc x of frame {X} by 1",
-            "timeout 2j", "repeat {X}", "print {X}", "done {X}", "native", "use {X}", "flo {X}"]
+            "timeout 2j", "repeat {X}", "print {X}", "done {X}", "native", "use {X}", "flo {X}",
+            # non-finite / huge / fractional numeric literals where a count or a time is expected
+            "repeat inf", "repeat -inf", "repeat nan", "repeat 1e400", "repeat 2.5", "repeat 1e3", "repeat -1",
+            "timeout inf", "timeout nan", "timeout -inf", "timeout 1e400",
+            "bid start fa at inf", "bid start fa at nan", "go next if elapsed >= inf", "go next if recurred >= nan",
+            "put inf into x", "put nan into x", "inc x by inf", "set x with nan"]
 ROLE_TWO = ["go next if aux {X} in framer {Y} is done", "go next if any in frame {X} in framer {Y} is done",
             "go next if aux {X} in frame {Y} is done", "rear {X} as t1 in frame {Y}", "aux {X} as {Y}",
             "go next if {X} in framer {Y} is done"]
